@@ -24,6 +24,7 @@
 
 
 // project includes
+#include "celma/common/detail/verif_hook.hpp"
 #include "celma/common/file_operations.hpp"
 #include "celma/log/filename/builder.hpp"
 
@@ -87,8 +88,12 @@ void MaxSize::rollFiles()
 
       fname_builder.filename( dest_filename, file_nbr,     ::time( nullptr));
       fname_builder.filename( src_filename,  file_nbr - 1, ::time( nullptr));
+      CELMA_VERIF_POINT( "roll:before-rename");
+
       // ignore errors of files that don't exist
       common::FileOperations::rename( dest_filename, src_filename);
+
+      CELMA_VERIF_POINT( "roll:after-rename");
    } // end for
 
 } // MaxSize::rollFiles
